@@ -223,7 +223,7 @@ func c11RunOp(in *e1Inst, i int, border *string, overwrite bool, plant string) *
 	if err != nil {
 		res = "err"
 	}
-	o.counts = append(o.counts, kind+"/"+res, fmt.Sprintf("%s/writes%d", kind, len(writes)), "storage/"+in.ca)
+	o.counts = append(o.counts, kind+"/"+res, fmt.Sprintf("%s/writes%d", kind, len(writes)), "storage/"+in.ca, "keep_going/"+b2s(in.keepGoing))
 	if i == 0 {
 		o.counts = append(o.counts, "boot-order/"+*border)
 	}
@@ -233,12 +233,13 @@ func c11RunOp(in *e1Inst, i int, border *string, overwrite bool, plant string) *
 	return o
 }
 
-func c11History(ca string, n int, seed uint64, withPlant bool) []*c11Op {
+func c11History(ca string, n int, seed uint64, withPlant, keepGoing bool) []*c11Op {
 	dir, err := os.MkdirTemp("", "verif-c11-")
 	must(err)
 	defer os.RemoveAll(dir)
 	rng := &Rng{s: seed}
 	in := newInst("memkm", ca, &e1Snap{}, dir, rng)
+	in.keepGoing = keepGoing
 	var ops []*c11Op
 	border := ""
 	key := e1FirstKey
@@ -276,6 +277,7 @@ func runC11(c *Ctx) {
 		n     int
 		seed  uint64
 		plant bool
+		keep  bool
 		out   []*c11Op
 	}
 	var jobs []*job
@@ -283,7 +285,7 @@ func runC11(c *Ctx) {
 	maxN := c.N(3, 6)
 	for _, ca := range []string{"gcsmem", "gcslocal"} {
 		for r := 0; r < reps; r++ {
-			jobs = append(jobs, &job{ca: ca, n: r % (maxN + 1), seed: c.Rng.Next(), plant: r%3 == 0})
+			jobs = append(jobs, &job{ca: ca, n: r % (maxN + 1), seed: c.Rng.Next(), plant: r%3 == 0, keep: r%4 == 1})
 		}
 	}
 	var wg sync.WaitGroup
@@ -293,7 +295,7 @@ func runC11(c *Ctx) {
 		go func() {
 			defer wg.Done()
 			for j := range ch {
-				j.out = c11History(j.ca, j.n, j.seed, j.plant)
+				j.out = c11History(j.ca, j.n, j.seed, j.plant && !j.keep, j.keep)
 			}
 		}()
 	}
